@@ -14,7 +14,8 @@ ASSUMPTIONS = ["the accounted fall time is the value returned by the public Puls
 TIERS = {"quick": dict(cases=1500, shards=8, case_timeout=120, shard_timeout=900),
          "thorough": dict(cases=24000, shards=16, case_timeout=120, shard_timeout=3000)}
 FLOORS = {"quick": {"adds_checked": 4000, "start_decided_by_conflict": 200, "start_decided_by_phase_jump": 200,
-                    "estimates_checked": 4000, "aligns_moved": 100},
+                    "estimates_checked": 4000, "aligns_moved": 100,
+                    "barrier_shadow_beyond_channel_end": 100, "conflict_bound_from_pulse_behind_detuned_delay": 10},
           "thorough": {"adds_checked": 60000}}
 WEIGHTS = {"add": 12, "align": 2.5, "delay": 2, "declare_channel": 3, "phase_shift": 1.0, "measure": 0.02,
            "sample": 0, "str": 0, "to_abstract_repr": 0, "build_copy": 0, "queries": 0, "get_duration": 0.1}
